@@ -821,6 +821,154 @@ def oracle_sched_sweep(case):
     return Info(multi=infos)
 
 
+@st.composite
+def sched_close_cases(draw):
+    p = draw(st.integers(1, 3))
+    kind = draw(st.sampled_from(["random", "random", "preempt"]))
+    if kind == "random":
+        spec = ("random", draw(st.integers(0, 2 ** 32)), draw(st.sampled_from([0.0, 0.6])), draw(st.sampled_from([0.0, 0.02])))
+    else:
+        spec = ("preempt", draw(st.lists(st.tuples(st.integers(1, 80), st.integers(0, 4)), max_size=3)), draw(st.integers(0, 3)))
+    return {"pool": p, "min": draw(st.integers(0, p)), "k": draw(st.integers(1, p + 2)), "timeout": draw(st.sampled_from([0.5, 5, 60])),
+            "policy": draw(st.lists(st.booleans(), max_size=5)), "idle_first": draw(st.booleans()), "sched": spec, "lines": draw(st.integers(0, 4)) == 0}
+
+
+def oracle_sched_close(case):
+    """server_close() of a pooled server while requests are inside their methods, under the deterministic scheduler and
+    virtual time: it returns only when those requests are complete (they have their own replies), and when it has
+    returned no worker of the request pool is alive.  The serving loop itself is not run: the server is put into the
+    state 'served and shut down' (the accept loop's event is set), requests are handed over with process_request()."""
+    from vlib import detsched as D
+    from vlib import poolprog
+    import jsonrpclib.SimpleJSONRPCServer as S
+
+    simthreading, simqueue, tp = poolprog.sim()
+
+    class Handler(S.SimpleJSONRPCRequestHandler):
+        disable_nagle_algorithm = False
+
+    files = [S.__file__, tp.__file__] if case["lines"] else []
+    sched = D.Scheduler(D.make_chooser(case["sched"]), trace_files=files, max_steps=400000)
+    res = {"executing_at_return": None, "alive_at_return": None}
+    gate = D.Event()
+    policy = list(case["policy"])
+    state = {"executing": 0, "closing": False}
+
+    def on_quiescent(s_):
+        if gate.flag or not state["closing"]:
+            return False
+        if s_.pending_timers() and not (policy.pop(0) if policy else True):
+            return False          # a timer (a poll of stop(), an idle time-out) fires first
+        gate.flag = True
+        return True
+    sched.on_quiescent = on_quiescent
+
+    def main():
+        pool = tp.ThreadPool(case["pool"], case["min"], timeout=case["timeout"], logname="pool")
+        pool.start()
+        srv = S.PooledJSONRPCServer(("localhost", 0), requestHandler=Handler, logRequests=False, bind_and_activate=False, thread_pool=pool)
+        # as after serve_forever() was left through shutdown()
+        flag = [v for k, v in vars(srv).items() if k.endswith("__is_shut_down")]
+        if len(flag) != 1:
+            raise HarnessSkip()
+        flag[0].set()
+        reached = []
+        log = []
+
+        def hold(t):
+            state["executing"] += 1
+            log.append(t)
+            for ev in reached:
+                if not ev.flag and ev.tok == t:
+                    ev.set()
+            try:
+                gate.wait()
+                return t
+            finally:
+                state["executing"] -= 1
+        srv.register_function(hold, "hold")
+        if case["idle_first"]:
+            D.sleep(case["timeout"])      # idle workers above min_threads retire before anything arrives
+        pairs = []
+        for i in range(case["k"]):
+            a, b = socket.socketpair()
+            tok = "t%d" % i
+            body = json.dumps({"jsonrpc": "2.0", "id": tok, "method": "hold", "params": [tok]}).encode("utf-8")
+            a.sendall(b"POST / HTTP/1.0\r\nHost: x\r\nContent-Length: %d\r\n\r\n" % len(body) + body)
+            ev = D.Event()
+            ev.tok = tok
+            reached.append(ev)
+            pairs.append((a, b, tok))
+            srv.process_request(b, ("127.0.0.1", i))
+        for ev in reached[:case["pool"]]:
+            ev.wait()            # as many requests as there are workers are inside their methods, the others are queued
+        before = [t for t in sched.threads if t.name != "main"]
+        state["closing"] = True
+        srv.server_close()
+        res["executing_at_return"] = state["executing"]
+        res["alive_at_return"] = [t.name for t in before if t.state != "done"]
+        res["fileno"] = srv.socket.fileno()
+        gate.set()
+        out = []
+        for a, b, tok in pairs:
+            data = b""
+            if tok in log:
+                # (a request that was still queued is never answered: nothing to wait for)
+                a.settimeout(2)
+                try:
+                    while True:
+                        d = a.recv(65536)
+                        if not d:
+                            break
+                        data += d
+                except (socket.timeout, OSError):
+                    pass
+            a.close()
+            try:
+                b.close()
+            except OSError:
+                pass
+            out.append((tok, data))
+        res["out"], res["log"] = out, log
+
+    class HarnessSkip(Exception):
+        pass
+    try:
+        sched.run(main)
+    except (D.Deadlock, D.StepBudget) as ex:
+        fail("C12/stop-hangs:scheduled", "server_close() with %d request(s) inside their methods: %s: %s" % (case["k"], type(ex).__name__, str(ex)[:300]))
+    if sched.uncaught:
+        if any(isinstance(e[1], HarnessSkip) or type(e[1]).__name__ == "HarnessSkip" for e in sched.uncaught):
+            raise Skip()
+        fail("C12/scheduled-uncaught", "exception escaped a thread: %r" % (sched.uncaught,))
+    if res["alive_at_return"] is None:
+        raise Skip()
+    if res["executing_at_return"]:
+        fail("C12/pool-workers-alive", "server_close() returned while %d request(s) were still inside their methods (virtual time, pool timeout %s)" % (
+            res["executing_at_return"], case["timeout"]))
+    if res["alive_at_return"]:
+        fail("C12/pool-workers-alive", "request-pool workers still alive when server_close() returned: %r" % (res["alive_at_return"],))
+    if res["fileno"] != -1:
+        fail("C12/socket-left-open", "the listening socket is still open after server_close()")
+    for tok, data in res["out"]:
+        head, sep, body = data.partition(b"\r\n\r\n")
+        try:
+            reply = json.loads(body.decode("utf-8")) if sep else None
+        except ValueError:
+            reply = None
+        if tok not in res["log"]:
+            # still queued when the server was closed: the pool may discard it (nothing is asserted for it)
+            continue
+        if not isinstance(reply, dict) or reply.get("id") != tok or reply.get("result") != tok:
+            fail("C12/lost-request", "the request %r that was in flight when the server was closed received %r" % (tok, data[:160]))
+    if len(set(res["log"])) != len(res["log"]):
+        fail("C12/duplicated-execution", "in-flight requests executed as %r" % (res["log"],))
+    return Info(nt=case["k"] >= 2 or sched.preemptions >= 1, classes=["scheduled-close", "pool:%d" % case["pool"], "in-flight:%d" % case["k"],
+                                                                      "min:%d" % case["min"], "lines" if case["lines"] else "sync"],
+                key=(case["pool"], case["min"], case["k"], case["timeout"], tuple(sched.choices)),
+                sample={"pool": [case["pool"], case["min"], case["timeout"]], "in_flight": case["k"], "schedule": sched.choices[:30]})
+
+
 def scheduled_run(case, chooser):
     from vlib import detsched as D
     from vlib import poolprog
@@ -960,6 +1108,10 @@ SUBS = [
     Sub("long-inflight", oracle_long_inflight, enumerate=long_inflight_cases, teardown=net_teardown, shards={"quick": 2, "thorough": 4},
         time_cap={"quick": 100, "thorough": 1500},
         what="a request still running several seconds after the stop began, on a user pool with a short queue timeout (real time)"),
+    Sub("scheduled-close", oracle_sched_close, strategy=lambda tier: sched_close_cases(),
+        budget={"quick": 1200, "thorough": 20000}, shards={"quick": 6, "thorough": 16},
+        time_cap={"quick": 100, "thorough": 1500},
+        what="server_close() of a pooled server with requests inside their methods, under the scheduler and virtual time"),
     Sub("scheduled-sweep", oracle_sched_sweep, enumerate=sched_sweep_cases, shards={"quick": 12, "thorough": 12},
         time_cap={"quick": 100, "thorough": 1500},
         what="pooled server handlers: every single preemption at a distinct source line of 6 small request sets"),
